@@ -40,6 +40,64 @@ pub fn generate(tier: Tier, emit: Emit) {
     gen_structured(tier, emit);
     gen_capture(tier, emit);
     gen_generators(tier, emit);
+    gen_tails(tier, emit);
+}
+
+/// function bodies whose last expression contains a (bare or valued) return / break / continue in
+/// every nested position, and statements whose value is discarded (incl. function literals)
+fn gen_tails(_tier: Tier, emit: Emit) {
+    let rets: Vec<(&str, X)> = vec![("bare", ret(None)), ("valued", ret(Some(int(7))))];
+    for (rname, r) in &rets {
+        let tails: Vec<(&str, Vec<X>)> = vec![
+            ("if-block", vec![x(E::If(vec![(id("c"), blk(vec![r.clone()]))], None))]),
+            ("if-else-block", vec![x(E::If(vec![(id("c"), blk(vec![assign("t", int(1)), r.clone()]))], Some(blk(vec![assign("t", int(2))]))))]),
+            ("else-return", vec![x(E::If(vec![(id("c"), blk(vec![assign("t", int(1))]))], Some(blk(vec![r.clone()]))))]),
+            ("for-return", vec![x(E::For(vec![Pat::Id("i".into(), None)], x(E::Range(Some(int(0)), Some(int(2)), false)), blk(vec![x(E::If(vec![(id("c"), blk(vec![r.clone()]))], None))])))]),
+            ("while-return", vec![assign("n", int(0)), x(E::While(cmp(id("n"), CmpOp::Lt, int(2)), blk(vec![x(E::OpAssign(Op::Add, Tgt::Id("n".into()), int(1))), x(E::If(vec![(id("c"), blk(vec![r.clone()]))], None))])))]),
+            ("nested-if", vec![x(E::If(vec![(boolean(true), blk(vec![x(E::If(vec![(id("c"), blk(vec![r.clone()]))], None))]))], None))]),
+            ("match-arm", vec![x(E::Match(vec![id("c")], vec![Arm { alts: vec![vec![Pat::Lit(boolean(true))]], guard: None, body: blk(vec![r.clone()]), is_else: false }, Arm { alts: vec![], guard: None, body: blk(vec![int(3)]), is_else: true }]))]),
+            ("try-body", vec![x(E::Try(blk(vec![x(E::If(vec![(id("c"), blk(vec![r.clone()]))], None))]), vec![CatchArm { pat: Pat::Id("e".into(), None), body: blk(vec![int(4)]) }], None))]),
+            ("statement-then-if", vec![assign("t", int(5)), x(E::If(vec![(id("c"), blk(vec![r.clone()]))], None))]),
+        ];
+        for (tname, body) in tails {
+            for cval in [true, false] {
+                let prog = vec![
+                    assign("f", func(&["c"], body.clone())),
+                    print(tuple(vec![s("before"), callf("f", vec![boolean(cval)]), s("after")])),
+                    assign("g", func(&["c"], vec![assign("inner", func(&["c"], body.clone())), tuple(vec![callf("inner", vec![id("c")]), s("outer")])])),
+                    print(callf("g", vec![boolean(cval)])),
+                    print(s("end")),
+                ];
+                let _ = (rname, tname);
+                emit(Case { family: "tail-returns", prog, shape: vec![] });
+            }
+        }
+    }
+    // discarded values: the statement has no effect, what follows still runs
+    let discarded: Vec<X> = vec![
+        func_inline(&["v"], bin(Op::Add, id("v"), int(1))),
+        func(&["v"], vec![assign("w", id("v")), id("w")]),
+        func_inline(&[], int(1)),
+        list(vec![int(1), func_inline(&["v"], id("v"))]),
+        map(vec![("k", func_inline(&["v"], id("v")))]),
+        tuple(vec![int(1), int(2)]),
+        x(E::Range(Some(int(1)), Some(int(3)), false)),
+        s("text"),
+        int(5),
+        null(),
+        id("a"),
+    ];
+    for d in &discarded {
+        for ctx_kind in 0..4 {
+            let prog = match ctx_kind {
+                0 => vec![assign("a", int(1)), d.clone(), print(s("after")), print(id("a"))],
+                1 => vec![assign("a", int(1)), assign("f", func(&[], vec![d.clone(), print(s("in-f")), int(9)])), print(callf("f", vec![])), print(s("end"))],
+                2 => vec![assign("a", int(1)), x(E::For(vec![Pat::Id("i".into(), None)], x(E::Range(Some(int(0)), Some(int(2)), false)), blk(vec![d.clone(), print(id("i"))]))), print(s("end"))],
+                _ => vec![assign("a", int(1)), x(E::If(vec![(boolean(true), blk(vec![d.clone(), print(s("in-if"))]))], None)), print(s("end"))],
+            };
+            emit(Case { family: "discarded-values", prog, shape: vec![] });
+        }
+    }
 }
 
 /// calls `f` with the values in `vals` using call spelling `sp`; None if the spelling is not
